@@ -1286,7 +1286,8 @@ def rule_read_primitives(ctx, g, rid):
             else:
                 ctx.violation(rid, f.short, "reals are not decoded through GdsFloat64::decode", g.site(f))
         if f.id.startswith("gds21::read::") and f.short.endswith("::read_str"):
-            b = Body(f)
+            from analysis.inline import inlined
+            b = Body(inlined(F, f, depth=2))      # `strip_trailing_nul(&data)` extracted into a helper is read in place
             # count the `== 0` tests on the last byte: exactly one strip, not in a loop
             strips = 0
             inloop = False
